@@ -273,11 +273,11 @@ func c08RunChild(a vh.Args, c *c08Case, dir, inject, log string) (exit string, e
 	if err := os.WriteFile(dataFile, vh.UnHex(c.DataHex), 0644); err != nil {
 		return "", err
 	}
-	cmd.Env = append(os.Environ(), "VH_C08_CHILD=store", "VH_C08_DIR="+dir, "VH_C08_UNC="+b01(c.Unc),
+	cmd.Env = append(os.Environ(), "VH_C08_CHILD=store", "VH_C08_DIR="+dir, "VH_C08_UNC="+lsB01(c.Unc),
 		"VH_C08_DATAFILE="+dataFile, "GOMAXPROCS=2", "GOGC=off",
 		"VH_C08_WRITERS="+strconv.Itoa(c.Writers))
 	if c.Kind == "store-fsize" {
-		cmd.Env = append(cmd.Env, "VH_C08_FSIZE="+strconv.Itoa(c.Fsize), "VH_C08_IGNXFSZ="+b01(c.IgnXfsz))
+		cmd.Env = append(cmd.Env, "VH_C08_FSIZE="+strconv.Itoa(c.Fsize), "VH_C08_IGNXFSZ="+lsB01(c.IgnXfsz))
 	}
 	done := make(chan error, 1)
 	if err := cmd.Start(); err != nil {
@@ -355,7 +355,7 @@ func c08CheckStore(a vh.Args, o *vh.Oracle, r *vh.Result, c *c08Case, dir string
 		return err
 	}
 	data := vh.UnHex(c.DataHex)
-	idh := sha256Hex(data)
+	idh := lsSha256Hex(data)
 	obj := data
 	ext := ""
 	if !c.Unc {
@@ -445,7 +445,7 @@ func c08Reach(o *vh.Oracle, c *c08Case, writers int) (*c08Sets, error) {
 	}
 	var ws []string
 	for i := 0; i < writers; i++ {
-		ws = append(ws, fmt.Sprintf("%s:%s:%s:%s", b01(c.Unc), sha256Hex(data), hx([]byte(fmt.Sprintf(".%d", i+1))), hx(obj)))
+		ws = append(ws, fmt.Sprintf("%s:%s:%s:%s", lsB01(c.Unc), lsSha256Hex(data), lsHx([]byte(fmt.Sprintf(".%d", i+1))), lsHx(obj)))
 	}
 	ans, err := o.Call("c08.reach", strings.Join(ws, ","), encodeTree("s", c.Pre))
 	if err != nil {
@@ -499,7 +499,7 @@ func c08StoreSweep(a vh.Args, o *vh.Oracle, r *vh.Result, unc bool, data []byte,
 		fmt.Fprintf(os.Stderr, "reach %s: %v\n", tag, time.Since(t0))
 	}
 	prep := func() (string, error) {
-		dir, err := freshDir(a.Work, "c08")
+		dir, err := lsFreshDir(a.Work, "c08")
 		if err != nil {
 			return "", err
 		}
@@ -535,7 +535,7 @@ func c08StoreSweep(a vh.Args, o *vh.Oracle, r *vh.Result, unc bool, data []byte,
 		if !unc {
 			obj, _ = desync.Compress(data)
 		}
-		ans, err := o.Call("c08.ops", b01(unc), sha256Hex(data), hx([]byte("*")), hx(obj))
+		ans, err := o.Call("c08.ops", lsB01(unc), lsSha256Hex(data), lsHx([]byte("*")), lsHx(obj))
 		if err != nil {
 			return err
 		}
@@ -659,7 +659,7 @@ func c08TwoWriters(a vh.Args, o *vh.Oracle, r *vh.Result, unc bool, data []byte,
 	log := filepath.Join(a.Work, "strace.log")
 	for _, sc := range []string{"openat", "write", "close", "renameat", "mkdirat", "exit_group"} {
 		for _, k := range ks {
-			dir, err := freshDir(a.Work, "c08")
+			dir, err := lsFreshDir(a.Work, "c08")
 			if err != nil {
 				return err
 			}
@@ -702,9 +702,9 @@ func runC08(a vh.Args, o *vh.Oracle, r *vh.Result) error {
 	}
 	for di, data := range datas {
 		for _, unc := range []bool{false, true} {
-			idh := sha256Hex(data)
+			idh := lsSha256Hex(data)
 			other := rng.Bytes(9)
-			oid := sha256Hex(other)
+			oid := lsSha256Hex(other)
 			oc, _ := desync.Compress(other)
 			pres := [][]fsEnt{nil}
 			// the same id already present in the other format, the directory exists, an unrelated chunk, junk
@@ -747,7 +747,7 @@ func runC08(a vh.Args, o *vh.Oracle, r *vh.Result) error {
 func c08Replay(a vh.Args, o *vh.Oracle, r *vh.Result, c *c08Case) error {
 	switch c.Kind {
 	case "store-kill", "store-fsize", "store-2writers", "store-trace":
-		dir, err := freshDir(a.Work, "c08")
+		dir, err := lsFreshDir(a.Work, "c08")
 		if err != nil {
 			return err
 		}
